@@ -26,10 +26,28 @@ def check(ctx):
     ctx.sub(s3b_refused_movements)
     from . import c04
     ctx.sub(c04.s2_s3_update)          # a fill is debited to the portfolio whose queue the order came from
-    refl = reflection_sites(M)
-    ctx.require(not [r for r in refl if r[2] in ('setattr', 'delattr', 'exec', 'eval', '__dict__', '__setattr__', 'vars', 'globals')],
-                'C01.closed-world', 'no reflection in the package', refl[0][0].site(refl[0][1]) if refl else None,
-                'reflection defeats the name-based ownership scan')
+    # closed-world premise of the name-based ownership scans: attribute writes are spelled with their names.  setattr with a name drawn from constants of the
+    # same module is still closed (the candidate names are known); anything wider leaves the premise - and with it the scans - open, which is reported as such
+    import ast as _ast
+    refl = [r for r in reflection_sites(M) if r[2] in ('setattr', 'delattr', 'exec', 'eval', '__dict__', '__setattr__', 'vars', 'globals')]
+    guarded = {'cash', 'cash_balances', 'history', 'portfolios', 'open_orders', 'positions', 'pos_handler', 'buy_quantity', 'sell_quantity'}
+    open_sites = []
+    for fn_, n_, kind in refl:
+        if kind in ('setattr', 'delattr') and isinstance(n_, _ast.Call) and len(n_.args) >= 2:
+            a1 = n_.args[1]
+            if isinstance(a1, _ast.Constant) and isinstance(a1.value, str):
+                names = {a1.value}
+            else:
+                names = {x_.value for x_ in _ast.walk(M.mods[fn_.mod][1]) if isinstance(x_, _ast.Constant) and isinstance(x_.value, str) and x_.value.isidentifier()} \
+                    if isinstance(a1, _ast.Name) and a1.id not in fn_.params else None
+            if names is not None and not (names & {'cash', 'cash_balances', 'history', 'portfolios', 'open_orders'}):
+                continue
+        open_sites.append((fn_, n_, kind))
+    if open_sites:
+        ctx.undecided('C01.closed-world', 'attribute writes are spelled with their names (no open-ended reflection)', open_sites[0][0].site(open_sites[0][1]),
+                      '%s in %s: the name-based ownership scans cannot see what it writes' % (open_sites[0][2], open_sites[0][0].qn))
+    else:
+        ctx.holds('C01.closed-world', 'attribute writes are spelled with their names (%d reflective writes, all over constant names of their own module)' % len(refl), None)
 
 
 # ------------------------------------------------------------------------------------------------ S1
